@@ -48,4 +48,8 @@ def set_disks(w, devs, sysblock):
 
 
 def set_statvfs(w, path, blocks, bfree, bavail, frsize):
-    w.statvfs_map = {path: (blocks, bfree, bavail, frsize)}
+    # f_bsize (preferred I/O size) is no part of the contract: the counts are in
+    # f_frsize units.  Half of the cases are NFS-like (1 MiB-ish I/O size over
+    # small fragments), the other half have the two equal as on local disks.
+    bsize = frsize * 256 if blocks % 2 else frsize
+    w.statvfs_map = {path: (blocks, bfree, bavail, frsize, bsize)}
